@@ -17,7 +17,7 @@ def run_seed(sid):
         res={}
         for pid in props:
             e=dict(env,VERIF_REPO=S,VERIF_DIR=V)
-            r=subprocess.run(['/verif/bin/trzszlint','check',pid,'--tier','quick'],env=e,capture_output=True,text=True)
+            r=subprocess.run([os.environ.get('BIN','/verif/bin/trzszlint'),'check',pid,'--tier','quick'],env=e,capture_output=True,text=True)
             keys=[l.split('key:')[1].strip() for l in r.stdout.splitlines() if l.strip().startswith('key:')]
             und=[l for l in r.stdout.splitlines() if l.startswith('UNDECIDED')]
             if r.returncode==1: res[pid]={'violations':sorted(set(keys))}
@@ -34,9 +34,10 @@ with concurrent.futures.ThreadPoolExecutor(max_workers=8) as ex:
         own=sid.split('-')[0]
         status='ERROR' if 'error' in res else ('own' if own in res and 'violations' in res[own] else ('other:'+','.join(k for k in res if 'violations' in res[k]) if any('violations' in v for v in res.values()) else 'MISSED'))
         print(sid,status,flush=True)
+        if os.environ.get('NOMETA'): continue
         mp=os.path.join(seeded,sid,'meta.json'); m=json.load(open(mp))
         m['detected_by']={k:v['violations'] for k,v in res.items() if isinstance(v,dict) and 'violations' in v}
         m['undecided_in']={k:v['undecided'] for k,v in res.items() if isinstance(v,dict) and 'undecided' in v}
         m['detected_by_own_property_check']= own in m['detected_by']
         json.dump(m,open(mp,'w'),indent=1)
-json.dump(out,open('/verif/seeded/results.json','w'),indent=1)
+if len(sys.argv)==1: json.dump(out,open('/verif/seeded/results.json','w'),indent=1)
